@@ -387,6 +387,24 @@ def gen_ops(rng, tier):
         for h in helpers:
             zs, w, fold = gen_value(rng)
             yield ("tostr", h, zs, w, fold)
+    # 2b. the same helpers (and the offset / zone tokens) on zones that are NOT UTC but stand at offset zero at that instant:
+    #     "Z" / "UTC" belong to the UTC zone, not to a zero offset
+    zero_zones = [z for z in ("Europe/London", "Europe/Lisbon", "Africa/Abidjan", "Atlantic/Reykjavik", "Etc/GMT", "GMT", "Africa/Casablanca",
+                              "Europe/Dublin", "Atlantic/Azores", "Etc/UTC", "UTC") if z in set(znames())]
+    for _ in range({"quick": 40, "thorough": 2000, "widen": 200}[tier]):
+        for h in helpers:
+            name = rng.choice(zero_zones)
+            u = rng.randint(MIN_INST, MAX_INST)
+            d = (EPOCH_UTC + dt.timedelta(seconds=u)).astimezone(zoneinfo.ZoneInfo(name))
+            if d.utcoffset():
+                continue
+            zs, w, fold = ("z", name), Z.to_us(d.replace(microsecond=rng.choice((0, 1, 123456)))), d.fold
+            yield ("tostr", h, zs, w, fold)
+            if rng.random() < 0.3:
+                yield ("fmt", "en", gen_parts(rng, 3, ["Z", "ZZ", "z", "zz", "YYYY", "HH"]), zs, w, fold)
+        for h in helpers[:3]:
+            zs, w, fold = gen_value(rng)
+            yield ("tostr", h, ("f", 0), w, 0)
     # 3. random sequences
     toks = DOC_TOKENS * 3 + EXTRA_TOKENS
     for _ in range(n_seq):
